@@ -22,6 +22,8 @@ func init() {
 		ID:    "C06",
 		Level: "exploration",
 		Rule: "trees (depth <= 6) of handler-bind (1-4 bindings over the alphabet {a b c2 error condition internal-panic}, any order, duplicates), ignore-errors, progn, let and function calls; the raise site is error, a host-raised error (verif:fail), a type error, a lisp-forged 'internal-panic or a host panic (verif:panic / nil-map write), placed in a body, in a handler expression, inside a handler body, or as rethrow from an inner handler or outside any handler; " +
+			"the handler FUNCTION is a lambda, a named function fetched by its symbol or by #'name, a host Go function bound directly (verif:hh-value / hh-fail / hh-panic / hh-call: returns a value, raises an ordinary error, panics, calls back into a lisp function) or the builtin list / identity; " +
+			"a handler BODY is a sequence of statements -- handler-bind forms that run to completion inside the running handler (body succeeds; body fails and is handled; error matches no binding and is swallowed by ignore-errors; in line or in a helper function; a host panic contained by an explicit internal-panic binding), each followed by (verif:capture) -- before the final value / (rethrow) / failure; (verif:capture) and (rethrow) are also attempted after a form has finished and in a later top-level form, outside any handler; " +
 			"value, condition, ordered effect trace and the identity pattern of errors seen by (verif:capture) versus the error finally returned are compared with the reference interpreter. distinct_nontrivial counts distinct (nesting skeleton, raise kind, raise position, outcome) signatures",
 		Assumptions: []string{
 			"error data is restricted to self-evaluating values (the handler call re-evaluates data cells; that re-evaluation is not part of the statement)",
@@ -39,6 +41,11 @@ type c06Gen struct {
 	skel      []string
 	raise     map[string]bool
 	inHandler int
+	// prelude holds the top-level definitions the program relies on: handlers that are
+	// named functions (fetched by symbol or #'name) and helper functions that themselves
+	// use handler-bind.
+	prelude []*sx.N
+	nfun    int
 }
 
 var c06Conds = []string{"a", "b", "c2", "error", "condition", "internal-panic"}
@@ -101,12 +108,21 @@ func (g *c06Gen) raiseForm() *sx.N {
 	}
 }
 
-func (g *c06Gen) handlerLambda(d int) *sx.N {
+// handlerBody is the body of a handler over the formals (c &rest args): what the handler
+// sees, then a sequence of statements that each run handler-bind forms to completion
+// while the handler is running (each followed by a look at the condition being handled),
+// then the final form -- a value, (rethrow), another failure ...
+func (g *c06Gen) handlerBody(d int) []*sx.N {
 	g.inHandler++
 	defer func() { g.inHandler-- }()
 	var body []*sx.N
 	body = append(body, sx.Call("verif:capture"))
 	body = append(body, g.probe("h", sx.Y("c")))
+	if d >= 1 && g.r.Chance(2, 5) {
+		for i := g.r.Range(1, 2); i > 0; i-- {
+			body = append(body, g.handlerStmt(d), sx.Call("verif:capture"))
+		}
+	}
 	switch g.r.Intn(9) {
 	case 0, 1:
 		body = append(body, sx.Call("list", sx.QY("handled"), sx.Y("c"), sx.Y("args")))
@@ -125,23 +141,117 @@ func (g *c06Gen) handlerLambda(d int) *sx.N {
 	default:
 		body = append(body, sx.I(int64(g.r.Intn(50))))
 	}
-	formals := sx.L(sx.Y("c"), sx.Y("&rest"), sx.Y("args"))
-	return sx.Call("lambda", append([]*sx.N{formals}, body...)...)
+	return body
+}
+
+func c06Formals() *sx.N { return sx.L(sx.Y("c"), sx.Y("&rest"), sx.Y("args")) }
+
+func (g *c06Gen) handlerLambda(d int) *sx.N {
+	return sx.Call("lambda", append([]*sx.N{c06Formals()}, g.handlerBody(d)...)...)
+}
+
+// define adds (defun name formals body...) to the prelude and returns the name.
+func (g *c06Gen) define(prefix string, formals *sx.N, body []*sx.N) string {
+	g.nfun++
+	name := fmt.Sprintf("c06-%s%d", prefix, g.nfun)
+	g.prelude = append(g.prelude, sx.Call("defun", append([]*sx.N{sx.Y(name), formals}, body...)...))
+	return name
+}
+
+// handlerFn produces an expression whose value is the handler FUNCTION: a lambda, a
+// named function fetched by its symbol or by #'name, a host Go function bound directly
+// (returning a value, raising an ordinary error, panicking, calling back into lisp), or
+// a builtin of the language.
+func (g *c06Gen) handlerFn(d int) *sx.N {
+	k := g.r.Intn(24)
+	switch {
+	case k < 12:
+		return g.handlerLambda(d)
+	case k < 14:
+		g.skel = append(g.skel, "hfn-defun-symbol")
+		return sx.Y(g.define("h", c06Formals(), g.handlerBody(d)))
+	case k < 16:
+		g.skel = append(g.skel, "hfn-defun-funref")
+		return sx.FR(g.define("h", c06Formals(), g.handlerBody(d)))
+	case k < 17:
+		g.skel = append(g.skel, "hfn-host-value")
+		return sx.Y("verif:hh-value")
+	case k < 18:
+		g.skel = append(g.skel, "hfn-host-fail")
+		return sx.Y("verif:hh-fail")
+	case k < 20:
+		g.skel = append(g.skel, "hfn-host-panic")
+		return sx.Y("verif:hh-panic")
+	case k < 22:
+		g.skel = append(g.skel, "hfn-host-callback")
+		return sx.Call("progn", sx.Call("verif:set-callback", g.handlerLambda(d)), sx.Y("verif:hh-call"))
+	case k < 23:
+		g.skel = append(g.skel, "hfn-builtin-list")
+		if g.r.Bool() {
+			return sx.FR("list")
+		}
+		return sx.Y("list")
+	default:
+		g.skel = append(g.skel, "hfn-builtin-identity")
+		return sx.Y("identity")
+	}
+}
+
+// handlerStmt is one statement of a handler body: a handler-bind form that runs to
+// completion inside the running handler -- its body succeeds, its body fails and one of
+// its own handlers handles that, or its error matches none of its bindings and is
+// swallowed by an ignore-errors inside the handler -- written in line or as a call of a
+// helper function; or any other form under ignore-errors.
+func (g *c06Gen) handlerStmt(d int) *sx.N {
+	var st *sx.N
+	switch g.r.Intn(7) {
+	case 0, 1:
+		g.skel = append(g.skel, "hs-hb-succeeds")
+		st = sx.Call("handler-bind", sx.L(sx.L(sx.Y(fw.Pick(g.r, c06Conds)), g.handlerFn(d-1))), g.probe("s", sx.I(int64(g.r.Intn(100)))))
+	case 2, 3:
+		g.skel = append(g.skel, "hs-hb-handles")
+		c := fw.Pick(g.r, []string{"a", "b", "c2", "zz"})
+		spec := c
+		if g.r.Chance(1, 4) {
+			spec = "condition"
+		}
+		st = sx.Call("handler-bind", sx.L(sx.L(sx.Y(spec), g.handlerFn(d-1))), sx.Call("error", sx.QY(c), g.datum()))
+	case 4, 5:
+		g.skel = append(g.skel, "hs-hb-unmatched")
+		st = sx.Call("handler-bind", sx.L(sx.L(sx.Y(fw.Pick(g.r, []string{"a", "b"})), g.handlerFn(d-1))), sx.Call("error", sx.QY(fw.Pick(g.r, []string{"c2", "zz"})), g.datum()))
+	default:
+		g.skel = append(g.skel, "hs-form")
+		st = g.form(d - 1)
+	}
+	if g.r.Chance(1, 3) {
+		g.skel = append(g.skel, "hs-in-helper")
+		st = sx.Call(g.define("helper", sx.L(sx.Y("x")), []*sx.N{st}), sx.I(int64(g.r.Intn(9))))
+	}
+	switch g.r.Intn(4) {
+	case 0:
+		// the statement's failure, if any, leaves the handler
+		return st
+	case 1:
+		// a host panic on the way (a panicking handler) is contained by an explicit binding
+		g.skel = append(g.skel, "hs-contained")
+		return sx.Call("ignore-errors", sx.Call("handler-bind", sx.L(sx.L(sx.Y("internal-panic"), g.handlerFn(d-1))), st))
+	}
+	return sx.Call("ignore-errors", st)
 }
 
 func (g *c06Gen) handlerExpr(d int) *sx.N {
 	switch g.r.Intn(10) {
 	case 0:
 		g.skel = append(g.skel, "hexpr-probe")
-		return g.probe("hx", g.handlerLambda(d))
+		return g.probe("hx", g.handlerFn(d))
 	case 1:
 		g.skel = append(g.skel, "hexpr-raises")
-		return sx.Call("progn", g.raiseForm(), g.handlerLambda(d))
+		return sx.Call("progn", g.raiseForm(), g.handlerFn(d))
 	case 2:
 		g.skel = append(g.skel, "hexpr-not-a-function")
 		return sx.I(7)
 	}
-	return g.handlerLambda(d)
+	return g.handlerFn(d)
 }
 
 // form generates a body form of depth <= d.
@@ -199,6 +309,12 @@ func (g *c06Gen) form(d int) *sx.N {
 		}
 		return sx.Call("ignore-errors", body...)
 	case 5:
+		if g.r.Chance(1, 3) {
+			// what is the condition being handled AFTER the form has finished, and what does
+			// (rethrow) do there: outside any handler it is an ordinary error
+			g.skel = append(g.skel, "then-rethrow")
+			return sx.Call("progn", g.form(d-1), sx.Call("verif:capture"), sx.Call("rethrow"))
+		}
 		g.skel = append(g.skel, "progn")
 		return sx.Call("progn", g.probe("before", sx.I(1)), g.form(d-1), g.probe("after", sx.I(2)))
 	case 6:
@@ -209,6 +325,12 @@ func (g *c06Gen) form(d int) *sx.N {
 		return sx.Call("list", g.form(d-1), g.probe("sib", sx.I(3)), g.form(d-1))
 	case 8:
 		return g.raiseForm()
+	case 12:
+		if g.r.Bool() {
+			// a host panic is contained by naming it explicitly
+			g.skel = append(g.skel, "contain")
+			return sx.Call("handler-bind", sx.L(sx.L(sx.Y("internal-panic"), g.handlerFn(d-1))), g.form(d-1))
+		}
 	}
 	return g.probe("v", sx.I(int64(g.r.Intn(100))))
 }
@@ -221,6 +343,21 @@ func c06Run(w *fw.W, idx int) {
 	for i := r.Range(1, 3); i > 0; i-- {
 		forms = append(forms, g.form(depth))
 	}
+	if r.Chance(1, 3) {
+		// a later top-level form, outside any handler: no condition is being handled, and
+		// (rethrow) is an ordinary error
+		g.skel = append(g.skel, "tail-rethrow")
+		forms = append(forms, sx.Call("verif:capture"))
+		switch r.Intn(3) {
+		case 0:
+			forms = append(forms, sx.Call("rethrow"))
+		case 1:
+			forms = append(forms, sx.Call("ignore-errors", sx.Call("rethrow")))
+		default:
+			forms = append(forms, sx.Call("handler-bind", sx.L(sx.L(sx.Y("condition"), g.handlerLambda(0))), sx.Call("rethrow")))
+		}
+	}
+	forms = append(g.prelude, forms...)
 	src := sx.Render(forms, nil)
 
 	rr := rt.New(rt.Opts{MaxSteps: 400_000})
